@@ -58,6 +58,18 @@ CHECKS = {
    text="Translation validation per generated program: each generated chart (promela datamodel; events produced by the chart's own <send>s) is emitted by ChartToPromela and the emitted model is executed by spin in simulation mode under three spin seeds (which must agree); its TRACE_EXECUTION output, mapped back through the emitted #defines and the annotated document, is compared with the interpreter's trace of the same document (states exited/entered, transitions taken, events dequeued, log values).",
    note="Trusted: spin's simulator, the trace parser, the mapping through #defines. spin is used as an executor only, never as a verifier. Never-stabilising charts (bounded channels) and charts without transitions are skipped and counted; differences explained by the transpilers' conflict relation are attributed to F-C06-1. No nested machines / delays.",
    technique="differential property-based testing of emitted Promela (spin simulation) vs interpreter (Hypothesis)"),
+ 'C07': dict(category='fault_enumeration', design_ref='DESIGN.md §4 C07',
+   text="Fault injection: failing elements of six kinds are placed at generated positions of every kind of executable block (position histogram in the evidence), for the lua and promela datamodels and both engines; the full trace must equal the reference model's under the Recommendation's error rule (error.execution in the internal queue, only the remainder of that block skipped, interpreter keeps running). Robustness: text-level damaged documents and a coverage-guided libFuzzer campaign (load + validate + step under both engines) must never crash, hang or trip a sanitizer.",
+   note="Trusted: reference model's error rule; sanitizers. Only error names/order compared. send with an illegal target not injected (Rec. ambiguous). The libFuzzer target skips documents referencing external resources.",
+   technique="fault-injecting property-based testing against a reference model (Hypothesis) + libFuzzer with sanitizers"),
+ 'C14': dict(category='fault_enumeration', design_ref='DESIGN.md §4 C14',
+   text="Snapshot-point enumeration: every run is serialized at every stable point; each snapshot (up to 8 per run) is deserialized into a fresh interpreter which is driven with the remaining events; continuation trace, final data and final serialized state must equal the original's; a snapshot fed to a mutated document must be rejected; pending delayed events must survive (template stream with 150-300 ms delays).",
+   note="Trusted: worker observation. Stable notices not compared. Cancel-by-sendid after resume and active invocations are not covered.",
+   technique="snapshot/resume differential property-based testing (Hypothesis), both engines"),
+ 'C19': dict(category='exploration', design_ref='DESIGN.md §4 C19',
+   text="Soundness: freely generated and then structurally damaged documents that validate() accepts (no FATAL) are run under both engines (no crash, no init failure, legal configuration after every step judged on the document's own tree) and transpiled by all three back-ends (no crash). Completeness: charts valid by construction with real lua/promela expressions must get no FATAL and no syntax-error warning. validate() itself must not crash on any of these documents.",
+   note="Trusted: legality predicate on the document's own tree; generator validity. Warnings other than syntax errors ignored.",
+   technique="property-based testing with structural mutation (Hypothesis); validator verdict vs execution"),
 }
 NOT_YET = "check not implemented yet in this session (see DESIGN.md §11 for the plan)"
 
